@@ -49,6 +49,17 @@ def _is_uuid(v):
         return False
 
 
+_MAN = {"man": None}
+
+
+def _model_accepts(pi, v) -> bool:
+    man = _MAN["man"]
+    if not man or pi.get("cls") not in (man.get("models") or {}):
+        return True
+    req = {p["name"] for p in man["models"][pi["cls"]]["props"] if p["required"]}
+    return req <= set(v)
+
+
 def pick_member(inners: list, v):
     def ok(pi):
         k = pi["kind"]
@@ -76,7 +87,7 @@ def pick_member(inners: list, v):
         if isinstance(v, list):
             return k in ("ListProperty", "AnyProperty")
         if isinstance(v, dict):
-            return k in ("ModelProperty", "AnyProperty")
+            return (k == "ModelProperty" and _model_accepts(pi, v)) or k == "AnyProperty"
         return False
     # specific before generic
     for pi in inners:
@@ -190,6 +201,29 @@ def resolve_response(doc: dict, r):
     return r
 
 
+def py_is_str(pi: dict, v) -> bool:
+    """Is the Python argument for JSON value v of parameter pi a str instance?"""
+    k = pi["kind"]
+    if k == "UnionProperty":
+        m = pick_member(pi["inners"], v)
+        return py_is_str(m, v) if m else isinstance(v, str)
+    if k in ("EnumProperty", "LiteralEnumProperty"):
+        return pi.get("value_type") == "str"
+    if k in ("StringProperty", "AnyProperty", "ConstProperty"):
+        return isinstance(v, str)
+    return False
+
+
+def runtime_class(pi: dict) -> str:
+    k = pi["kind"]
+    if k in ("ModelProperty", "EnumProperty"):
+        return "cls:" + str(pi.get("cls"))
+    if k == "LiteralEnumProperty":
+        return pi.get("value_type", "str")
+    return {"ListProperty": "list", "FileProperty": "File", "StringProperty": "str", "IntProperty": "int", "FloatProperty": "float", "BooleanProperty": "bool",
+            "DateProperty": "date", "DateTimeProperty": "datetime", "UuidProperty": "UUID"}.get(k, k)
+
+
 def file_bytes(tok: docs.Tok) -> bytes:
     return (f"file-{tok.next()}-".encode() + bytes([0, 255, 10, 13, 34]) + b"\xe2\x82\xac")
 
@@ -209,7 +243,8 @@ def body_plan(doc: dict, man: dict, man_ep: dict, op: dict, tok: docs.Tok, rng: 
     schema = media["schema"]
     bt = mb["body_type"]
     pi = mb["prop"]
-    x = {"media": mb["content_type"], "body_type": bt, "n_bodies": len(man_ep["bodies"]), "prop_kind": pi["kind"]}
+    same = [o["content_type"] for o in man_ep["bodies"] if o is not mb and runtime_class(o["prop"]) == runtime_class(pi)]
+    x = {"media": mb["content_type"], "body_type": bt, "n_bodies": len(man_ep["bodies"]), "prop_kind": pi["kind"], "ambiguous_dispatch": bool(same)}
     if bt == "content":
         data = file_bytes(tok)
         x["bytes"] = base64.b64encode(data).decode()
@@ -314,6 +349,7 @@ def plan_ops(doc: dict, man: dict, args: dict) -> list:
     rng = random.Random(args.get("seed", 0))
     tok = docs.Tok(rng)
     comps = comps_of(doc)
+    _MAN["man"] = man
     acts = []
     if args.get("import", True):
         acts.append({"a": "import_all"})
@@ -331,7 +367,7 @@ def plan_ops(doc: dict, man: dict, args: dict) -> list:
                                                                  "params": {loc: [{"name": p["name"], "python_name": p["python_name"], "required": p["required"], "has_default": p["default"] is not None} for p in ep["params"][loc]] for loc in ep["params"]},
                                                                  "n_bodies": len(ep["bodies"])}})
         for ci in range(calls_per_op):
-            kwargs, wire = {}, {"path": {}, "query": {}, "header": {}, "cookie": {}}
+            kwargs, wire, nonstr = {}, {"path": {}, "query": {}, "header": {}, "cookie": {}}, set()
             unset = {"query": [], "header": [], "cookie": []}
             ok = True
             for loc in ("path", "query", "header", "cookie"):
@@ -350,6 +386,8 @@ def plan_ops(doc: dict, man: dict, args: dict) -> list:
                         break
                     if v is None:
                         v = docs.instance(dp.get("schema", {}), comps, tok, "min", 1)
+                    if p["kind"] == "AnyProperty" and not isinstance(v, (str, int, float)):
+                        v = tok.string()  # an untyped parameter has a defined wire form only for scalars
                     if v is None or (loc == "path" and (v == "" or v == [])):
                         if p["required"]:
                             ok = False
@@ -358,9 +396,11 @@ def plan_ops(doc: dict, man: dict, args: dict) -> list:
                         continue
                     kwargs[p["python_name"]] = to_desc(p, v)
                     wire[loc][p["name"]] = v
+                    if loc in ("header", "cookie") and not py_is_str(p, v):
+                        nonstr.add(f"{loc}:{p['kind']}" if loc == "header" else loc)
             if not ok:
                 continue
-            x = {"path": path, "method": ep["method"], "wire": wire, "unset": unset, "security": bool(op.get("security")), "ep": ep["name"]}
+            x = {"path": path, "method": ep["method"], "wire": wire, "unset": unset, "security": bool(op.get("security")), "ep": ep["name"], "nonstr": sorted(nonstr)}
             bp = body_plan(doc, man, ep, op, tok, rng, which=ci)
             if ep["bodies"]:
                 if bp is None:
